@@ -26,16 +26,18 @@ theorem integrate_fresh_eq_spec (g : Geo) (d : Data) (hg : g.wf) (hf : g.fresh) 
   have : ¬ (g.vol.isArray = true ∧ g.dim ≠ 2 ∧ d.shape ≠ g.numVoxels) := fun ⟨a, b, c⟩ => b (h3 a c)
   rw [if_neg this]
 
-/-- ... and outside the guard the only other outcome is the documented `ValueError`
-(wrong number of axes; array volume at a foreign resolution outside 2-D). -/
+/-- ... and the model has exactly two other outcomes: the documented `ValueError` (array volume at a foreign resolution
+outside 2-D), and `Err.other`, which marks data with another number of axes than the geometry as OUTSIDE THE MODELLED
+DOMAIN: the code has no guard there (numpy broadcasts, e.g. `Geometry(2,(4,4),[4,4]).integrate(np.ones(4))` returns 4.0);
+such inputs are outside the property's quantifier, are not modelled and are not sent by the check. -/
 theorem integrate_fresh_total (g : Geo) (d : Data) (hg : g.wf) (hf : g.fresh) :
-    (step true g d).2 = .ok (spec g d) ∨ (step true g d).2 = .error .value := by
+    (step true g d).2 = .ok (spec g d) ∨ (step true g d).2 = .error .value ∨ (step true g d).2 = .error .other := by
   rw [(step_canonical g g d hg (inv_fresh g hg hf)).1]
   unfold canonical
   split
-  · exact Or.inr rfl
+  · exact Or.inr (Or.inr rfl)
   · split
-    · exact Or.inr rfl
+    · exact Or.inr (Or.inl rfl)
     · exact Or.inl rfl
 
 /-- The effective voxel volumes are a partition of the geometry's volume: at every data resolution
